@@ -161,8 +161,8 @@ func runC02(c *Ctx) {
 					if pr, isP := cc.Args[0].(*ssa.Parameter); isP && len(cc.Args) == 1 {
 						if site := SoleCallSite(g); site != nil && site.Parent() == daNext {
 							for i, q := range g.Params {
-								if q == pr && i < len(CC(site).Args) {
-									ok = idxOK(CC(site).Args[i])
+								if a := ArgOfParam(site, g, i); q == pr && a != nil {
+									ok = idxOK(a)
 								}
 							}
 						}
